@@ -71,6 +71,10 @@ def num_to_py(n):
 
 STRINGS = ["", "a", "b", "ab", "ba", "abc", "foo", "bar", "a b", 'q"t', "back\\slash", "li\nne", "é", "tab\t", "\x01", "A", "Ab"]
 LONG_STRINGS = ["A" * 48, "B" * 50, "ab" * 30, "x" * 101]
+# texts that read like the matchers' own wording: a description is built by rewriting verb phrases ("to be" -> "is",
+# "to not be", "to have" -> "has", "to match" -> "matches") — a value that quotes them must come out untouched
+WORDING_STRINGS = ["to be", "to not be", "to have", "to match", "is", "has", "matches", "to be or not to be", "it has to be",
+                   "to be equal to 1", "and to have", " to be", "to be ", "To Be", "not", "to"]
 KEYS = ["a", "b", "k", "foo", 'q"k', ""]
 # the other key types json.dumps accepts; "1"/"null"/"true" are what json.dumps turns 1/None/True into (distinct keys for Python)
 SCALAR_KEYS = [None, True, False, ["i", 0], ["i", 1], ["i", 2], ["i", -1], ["i", 10 ** 20], ["f", 3], ["f", -1], ["f", 2], ["f", 20]]
@@ -95,8 +99,10 @@ def gen_str(rng, allow_long=True):
     r = rng.random()
     if allow_long and r < 0.06:
         return rng.choice(LONG_STRINGS)
-    if r < 0.8:
+    if r < 0.72:
         return rng.choice(STRINGS)
+    if r < 0.8:
+        return rng.choice(WORDING_STRINGS)
     return "".join(rng.choice("ab") for _ in range(rng.randint(0, 4)))
 
 
